@@ -84,6 +84,7 @@ func (sl *virtualStreamListener) AcceptStream() (transport.StreamConn, error) {
 	sl.mu.Lock()
 	acceptCh := sl.acceptCh
 	sl.mu.Unlock()
+	verifPoint("stream.accept.beforeSelect")
 
 	select {
 	case acceptResponse, ok := <-acceptCh:
@@ -148,6 +149,7 @@ func (pc *virtualPacketConn) ReadFrom(p []byte) (int, net.Addr, error) {
 		return 0, nil, net.ErrClosed
 	default:
 	}
+	verifPoint("packet.read.beforeOffer")
 
 	select {
 	case pc.readCh <- readRequest{
@@ -231,6 +233,7 @@ func (m *multiStreamListener) Acquire() (StreamListener, error) {
 					close(acceptCh)
 					return
 				}
+				verifPoint("stream.fanout.accepted")
 				select {
 				case acceptCh <- acceptResponse{conn, err}:
 				case <-doneCh:
@@ -262,6 +265,7 @@ func (m *multiStreamListener) Acquire() (StreamListener, error) {
 			// that another goroutine holds while it waits to acquire this listener.
 			onCloseFunc := m.onCloseFunc
 			m.mu.Unlock()
+			verifPoint("stream.lastClose.beforeCallback")
 			if onCloseFunc != nil {
 				return onCloseFunc()
 			}
@@ -315,6 +319,7 @@ func (m *multiPacketListener) Acquire() (net.PacketConn, error) {
 			for {
 				n, addr, err := pc.ReadFrom(buffer)
 				pkt := buffer[:n]
+				verifPoint("packet.fanout.received")
 				select {
 				case req := <-readCh:
 					n := copy(req.buffer, pkt)
@@ -350,6 +355,7 @@ func (m *multiPacketListener) Acquire() (net.PacketConn, error) {
 			// that another goroutine holds while it waits to acquire this listener.
 			onCloseFunc := m.onCloseFunc
 			m.mu.Unlock()
+			verifPoint("packet.lastClose.beforeCallback")
 			if onCloseFunc != nil {
 				return onCloseFunc()
 			}
